@@ -142,8 +142,9 @@ func c10Run(raw json.RawMessage) (res Result, err error) {
 		}
 	}
 	valid := isTF && in.Off >= 0 && in.Off < n && in.Off2 >= 0 && in.Off2 < n
-	guard := c10TickPos(in.IPD, obs.Ticks)%1e9 < 999999990
-	res.InDomain = valid && guard
+	// the former finding class F1 (fixed): tick position in the last 10 ns of a second; kept as a tag only
+	formerF1 := c10TickPos(in.IPD, obs.Ticks)%1e9 >= 999999990
+	res.InDomain = valid
 	res.Holds = true
 	if valid {
 		step := (n + (1<<32 - 1)) / (1 << 32)
@@ -160,15 +161,15 @@ func c10Run(raw json.RawMessage) (res Result, err error) {
 			fail("", "order not preserved: offsets %d,%d -> ticks %d,%d", in.Off, in.Off2, obs.Ticks, obs.Ticks2)
 		}
 		cl := ""
-		if !guard {
-			cl = "decoded-fraction-rounds-up"
-		}
 		if dec < 0 || dec > in.Off || in.Off-dec > step || (in.IPD == 86400 && dec != in.Off) {
 			fail(cl, "ipd=%d offset %d ns -> ticks %d -> (%d s, %d ns) = offset %d ns (step %d ns)", in.IPD, in.Off, obs.Ticks,
 				int64(obs.Sec)-int64(in.Start), obs.Ns, dec, step)
 		}
 	}
 	res.Tags = []string{fmt.Sprintf("ipd:%d", in.IPD)}
+	if formerF1 {
+		res.Tags = append(res.Tags, "former-F1-class")
+	}
 	if res.InDomain {
 		res.Tags = append(res.Tags, "in-domain")
 	} else {
@@ -186,7 +187,7 @@ func init() {
 		CoqCaseType: "C10.case",
 		Rule: "intervalsPerDay of every utils.Timeframes entry (1Sec 30%+); offsets at interval start/end, whole seconds +-20 ns, exact tick positions " +
 			"+-20 ns, .5/.99999999x fractions, uniform; a second offset (equal, within one step, or independent) for the order test; an arbitrary uint32 " +
-			"tick count decoded as well; distinct = distinct input; non-trivial = inside the guard with offset > 0",
+			"tick count decoded as well; distinct = distinct input; non-trivial = valid offsets with offset > 0",
 		Gen: c10Gen,
 		Run: c10Run,
 	})
